@@ -59,6 +59,18 @@ Theorem C01_roundtrip :
                 /\ roundtrip_ok pyval pyeq v_int np_dtype hdr dt rows out.
 Proof. exact roundtrip. Qed.
 
+(* The premise [user_hdr_ok] marks the edge of the statement and cannot be dropped: the user key
+   _Delim is not one of the names _make_header strips ([reserved] = false), every other premise
+   holds, and the reader (case-insensitive _match_key) takes the file for a text file. *)
+Theorem C01_roundtrip_needs_user_hdr_ok :
+  H_pf (list byte) eq bad_pformat bad_pyeval ex_np_dtype bad_head ex_dt
+  /\ ~ user_hdr_ok (list byte) bad_hdr
+  /\ ex_rows <> [] /\ rows_fit ex_dt ex_rows /\ 0 < rowsize ex_dt
+  /\ reserved (B "_Delim") = false
+  /\ sfile_read (list byte) ex_vstr dec ex_np_dtype bad_pyeval
+       (sfile_write (list byte) ex_vstr ex_vdescr bad_pformat bad_hdr ex_dt ex_rows) = Err EOther.
+Proof. exact roundtrip_needs_user_hdr_ok. Qed.
+
 (* _make_header keeps every user key other than the reserved names, with its value. *)
 Theorem C01_user_keys_kept :
   forall (pyval : Type) (v_str : list byte -> pyval) (v_descr : dtype -> pyval)
@@ -227,6 +239,12 @@ Theorem C01_checkers_sound :
   /\ (forall dt rows, rows_fit_b dt rows = true -> rows_fit dt rows).
 Proof. split; [exact sf_check_sound | split; [exact rf_check_sound | exact rows_fit_b_sound]]. Qed.
 
+(* ... and complete: they reject nothing that meets the property (no false alarm from the checker). *)
+Theorem C01_checkers_complete :
+  (forall dt rows ukeys o, sf_ok dt rows ukeys o -> sf_check dt rows ukeys o = true)
+  /\ (forall dt rows o, rf_ok dt rows o -> rf_check dt rows o = true).
+Proof. split; [exact sf_check_complete | exact rf_check_complete]. Qed.
+
 (* Non-vacuity: a closed instance meets every premise of C01_roundtrip (header value 'THE END',
    a reserved user key that is dropped) and the round trip computes. *)
 Example C01_nonvacuous :
@@ -239,3 +257,16 @@ Example C01_nonvacuous :
            [(B "k", B "'THE END'"); (B "_DTYPE", B "[('x', '<i2')]"); (B "_VERSION", B "'1.0'"); (B "_SIZE", B "2")])
   /\ scan_end (mk_header 2 w_text_value ++ concat ex_rows) = Ok 95%nat.
 Proof. exact nonvacuous. Qed.
+
+(* Non-vacuity of the layout theorems: data[::2] meets every premise of the any-layout round trip
+   (and the unrepaired writer returns other rows on it); a C-contiguous slice meets every premise
+   of C01_unrepaired_write_contiguous. *)
+Example C01_layout_nonvacuous :
+  (in_bounds w_strided = true /\ (1 <= view_size w_strided)%nat
+   /\ Z.of_nat (v_item w_strided) = rowsize ex_dt1 /\ 0 < rowsize ex_dt1
+   /\ recfile_read0 (recfile_write_view w_strided) ex_dt1 None = Ok [[x01]; [x03]]
+   /\ recfile_read0 (recfile_write_view_v0 w_strided) ex_dt1 None = Ok [[x01]; [x02]])
+  /\ (kf_noncontiguous_write w_contig = false /\ in_bounds w_contig = true /\ 0 <= v_start w_contig
+      /\ v_start w_contig + Z.of_nat (view_size w_contig * v_item w_contig) <= Z.of_nat (length (v_buf w_contig))
+      /\ recfile_write_view_v0 w_contig = [x02; x03]).
+Proof. exact layout_nonvacuous. Qed.
